@@ -258,6 +258,11 @@ func (b *build) prepare() error {
 	for src, dst := range b.h.files {
 		overlay[filepath.Join(repo, dst)] = filepath.Join(verif, src)
 	}
+	if b.h.race {
+		if err := b.overlayNoPoolReuse(overlay); err != nil {
+			return err
+		}
+	}
 	ob, _ := json.MarshalIndent(map[string]any{"Replace": overlay}, "", " ")
 	if err := os.WriteFile(filepath.Join(b.scratch, "overlay.json"), ob, 0o644); err != nil {
 		return err
